@@ -152,6 +152,65 @@ outer:
 done:
 	_ = 0
 }
+
+func keep(vals ...int) int { return len(vals) }
+
+func (p *Pair) gather(label string, more ...int) {
+	more = nil
+	_ = label
+	keep(more...)
+	func() {
+		more = nil
+		_ = more
+		keep(more...)
+		func() {
+			more = append(more, 1)
+			_ = label
+			go func(inner ...string) {
+				more = nil
+				_ = more
+				inner = nil
+				label = ""
+				keep(more...)
+			}()
+		}()
+	}()
+	defer func(more []int) {
+		more = nil
+		_ = more
+	}(nil)
+	func(label ...string) {
+		label = nil
+		_ = label
+		more = nil
+		func() { _ = label }()
+	}()
+	{
+		more := 1
+		more = 2
+		_ = more
+	}
+	for _, more := range []int{1} {
+		_ = more
+	}
+}
+
+var handler = func(pre int, tail ...string) {
+	tail = nil
+	func() {
+		tail = nil
+		pre = 0
+		func() { _ = tail }()
+	}()
+}
+
+func plain(list []int) {
+	func(list ...int) {
+		func() { list = nil }()
+	}()
+	list = nil
+	func() { list = nil }()
+}
 `
 
 // variadicParams: the objects go/types created for the `...T` parameter of a function declaration or a function literal of the
@@ -172,6 +231,44 @@ func variadicParams(t *hutil.Target) map[types.Object]bool {
 		return true
 	})
 	return out
+}
+
+// funcsAround: for every identifier of the file the function declarations / literals around it, innermost first
+func funcsAround(t *hutil.Target) map[*ast.Ident][]ast.Node {
+	out := map[*ast.Ident][]ast.Node{}
+	var stack []ast.Node
+	ast.Inspect(t.File, func(n ast.Node) bool {
+		if n == nil {
+			stack = stack[:len(stack)-1]
+			return false
+		}
+		stack = append(stack, n)
+		if id, ok := n.(*ast.Ident); ok {
+			for i := len(stack) - 1; i >= 0; i-- {
+				switch stack[i].(type) {
+				case *ast.FuncDecl, *ast.FuncLit:
+					out[id] = append(out[id], stack[i])
+				}
+			}
+		}
+		return true
+	})
+	return out
+}
+
+// sigLast: the variadic parameter of a function declaration / literal (nil when it has none)
+func sigLast(t *hutil.Target, fn ast.Node) types.Object {
+	var sig *types.Signature
+	switch v := fn.(type) {
+	case *ast.FuncDecl:
+		sig, _ = t.Info.ObjectOf(v.Name).Type().(*types.Signature)
+	case *ast.FuncLit:
+		sig, _ = t.Info.TypeOf(v).(*types.Signature)
+	}
+	if sig == nil || !sig.Variadic() {
+		return nil
+	}
+	return sig.Params().At(sig.Params().Len() - 1)
 }
 
 func objKind(o types.Object) string {
@@ -271,6 +368,7 @@ func defsRules(tmp string, enc *json.Encoder) []*ruleOut {
 		{"$x.$y", "x"},
 		{"$x += $_", "x"},
 		{"$x++", "x"},
+		{"keep($x...)", "x"},
 	}
 	for _, c := range captures {
 		c := c
@@ -386,6 +484,55 @@ func defsRules(tmp string, enc *json.Encoder) []*ruleOut {
 			}
 		}
 	}
-	enc.Encode(map[string]interface{}{"k": "defs-cov", "captures": len(captures), "roles": cov})
+	// coverage of Object.IsVariadicParam: captured identifiers that refer to a variadic parameter, by the number of function
+	// literals between the identifier and the function that declares the parameter; identifiers named like a variadic parameter
+	// of a function around them that denote something else (shadowed), and the other way round; and the sites on which the wrong
+	// oracle "the variadic parameter of the INNERMOST function around the identifier" differs from the reference
+	vcov := map[string]int{}
+	around := funcsAround(t)
+	seenIdent := map[*ast.Ident]bool{}
+	for key, l := range fam.locs {
+		if key[1] == "$$" {
+			continue
+		}
+		for _, s := range l.sites {
+			id := identIn(s)
+			if id == nil || seenIdent[id] {
+				continue
+			}
+			seenIdent[id] = true
+			o := t.Info.ObjectOf(id)
+			fns := around[id]
+			innermost := len(fns) > 0 && sigLast(t, fns[0]) == o && o != nil
+			if variadic[o] {
+				depth := -1
+				for i, fn := range fns {
+					if sigLast(t, fn) == o {
+						depth = i
+					}
+				}
+				vcov[fmt.Sprintf("variadic parameter, %d function literals between use and function", depth)]++
+				if !innermost {
+					vcov[fmt.Sprintf("innermost-only oracle differs at depth %d", depth)]++
+				}
+				if depth >= 0 {
+					if _, isDecl := fns[depth].(*ast.FuncDecl); isDecl && fns[depth].(*ast.FuncDecl).Recv != nil {
+						vcov["variadic parameter of a method"]++
+					}
+					if _, isLit := fns[depth].(*ast.FuncLit); isLit {
+						vcov["variadic parameter of a function literal"]++
+					}
+				}
+				continue
+			}
+			for _, fn := range fns {
+				if last := sigLast(t, fn); last != nil && last.Name() == id.Name && last != o {
+					vcov["named like a variadic parameter of a function around it, denotes another object"]++
+					break
+				}
+			}
+		}
+	}
+	enc.Encode(map[string]interface{}{"k": "defs-cov", "captures": len(captures), "roles": cov, "variadic": vcov})
 	return out
 }
